@@ -19,7 +19,7 @@ CASES = [
  B("trailer-tail-limit", HP, "                    if self._chunk == ChunkState.PARSE_TRAILERS:\n                        max_line_length = self._max_field_size\n", "", ["C03.rp2"], "buffered partial trailer compared with the chunk-size limit", ("C03",)),
  B("state-writer", WP, "            if self._parser is not None:\n                self._parser.message_consumed()", "            if self._parser is not None:\n                self._parser._msg_in_flight -= 1", ["C03.state"], "protocol pokes parser state directly", ("C03",)),
  B("stale-offset", HP, "                start_pos = 0\n                data_len = len(data)\n                self._payload_parser = None", "                data_len = len(data)\n                self._payload_parser = None", ["C03.rp3"], "cursor not reset after the buffer was replaced by the body parser's remainder", ("C03",)),
- N("rename-startpos", HP, "start_pos", "cursor", "rename the cursor local", ("C03", "C10"), count=14),
+ N("rename-startpos", HP, "start_pos", "cursor", "rename the cursor local", ("C03", "C10"), count=15),
  N("limit-inline", HP, LIM_OLD, "                max_line_length = self.max_field_size if self._lines else self.max_line_size\n", "one-line conditional", ("C03", "C10", "C01")),
  # C10
  B("int-ungated", HP, "            if not DIGITS.fullmatch(length_hdr):\n                                raise InvalidHeader(CONTENT_LENGTH)\n", "", ["C10.total", "C01.lex"], "placeholder", ("C10",)),
